@@ -173,9 +173,10 @@ def accept_loop_rules(ctx, rule, fn_path, handler_suffix, label):
     o = ctx.origins(body)
     loop = cfg.cycle_blocks(acc[0].bb) if in_loop else set()
     inline_io = []
+    spawn_sites = {e.bb for e in ctx.cg.out.get(body.name, []) if e.kind == "spawn"}
     for c in body.calls():
-        if c.bb not in loop or c.bb == acc[0].bb:
-            continue
+        if c.bb not in loop or c.bb == acc[0].bb or c.bb in spawn_sites:
+            continue        # a future that is created here and handed to spawn is not awaited by the loop
         nm = c.norm or ""
         callee_body = ctx.P.bodies.get(c.callee or "")
         is_async = callee_body is not None and callee_body.j.get("is_async_fn") in (True, "true")
